@@ -163,7 +163,9 @@ def make_state(case, contracts=()):
         # the library's own features, with their default transformers fitted at construction (fit_transformers=True)
         from tradingenv.library import FeaturePortfolioWeight, FeaturePrices
         # (the weight feature's declared range is wider than the action bounds: held weights drift with prices)
-        return [FeaturePortfolioWeight(list(contracts), 2 * st_[1] - 1.0, 2 * st_[2] + 1.0), FeaturePrices(list(contracts))]
+        total = bool(st_[4]) if len(st_) > 4 else False       # total=True: one entry, the sum of the weights
+        k = len(contracts) if total else 1
+        return [FeaturePortfolioWeight(list(contracts), k * (2 * st_[1] - 1.0), k * (2 * st_[2] + 1.0), total=total), FeaturePrices(list(contracts))]
     if st_[0] == "features":
         # a state given as a list of features (the documented shortcut): one saved or unsaved rolling feature, one
         # feature without event callbacks
@@ -359,7 +361,10 @@ def make_space(b):
     case = b.case
     sp = case.get("space", ["box", -3.0, 3.0])
     if sp[0] == "box":
-        return BoxPortfolio(space_contracts(b), low=sp[1], high=sp[2], as_weights=(sp[3] if len(sp) > 3 else True),
+        lo, hi = sp[1], sp[2]
+        if isinstance(lo, list):        # per-contract bounds (gymnasium takes arrays, not lists)
+            lo, hi = np.array(lo, dtype=float), np.array(hi, dtype=float)
+        return BoxPortfolio(space_contracts(b), low=lo, high=hi, as_weights=(sp[3] if len(sp) > 3 else True),
                             fractional=(sp[4] if len(sp) > 4 else True), margin=case.get("threshold", 0.0))
     if sp[0] == "discrete":
         return DiscretePortfolio(space_contracts(b), allocations=[list(a) for a in sp[1]],
@@ -372,7 +377,7 @@ def make_env_from(b):
     folds = None
     if case.get("fold"):
         lo, hi = case["fold"]
-        folds = {"f": [dt(lo), dt(hi)]}
+        folds = {"f": [dt(lo), dt(hi)], "whole": [dt(b.grid[0]), dt(b.grid[-1])]}     # ("whole": a second fold, used by C10)
     tr = Transmitter(timesteps=[stamp(case, g) for g in b.grid], folds=folds,
                      markov_reset=case.get("markov", False),
                      warmup=timedelta(microseconds=case["warmup_us"]) if case.get("warmup_us") else None)
